@@ -1,6 +1,6 @@
 import CuqiVerif.Model.Proto
 import CuqiVerif.Model.QMat
-import CuqiVerif.Model.C16
+import CuqiVerif.Model.C16_glue
 open CuqiVerif CuqiVerif.Proto CuqiVerif.C16
 
 /-! Line protocol for C16 (all numbers exact rationals):
@@ -16,6 +16,19 @@ open CuqiVerif CuqiVerif.Proto CuqiVerif.C16
   lbfgsb warnflag hasgrad                   -> success approx_grad msgcode
   mininfo hasjac hasnit                     -> grad=some|none nit=some|none   (info entries for fields SciPy does not report)
   mincall min|max method|None hasgrad kw,…  -> method|hasjac|kw,…   (the call handed to scipy.optimize.minimize)
+ glue (Model/C16_glue.lean); PYNUM = rational | nan | inf | -inf (the `maxit` argument as given to the constructor)
+  pyint PYNUM                               -> ok:<int> | err:ValueError | err:OverflowError
+  cglspy mat|fun … b x0 shift tol PYNUM     -> k|x | err:<class>          (`cglsSolve`)
+  fistapy mat|fun … b x0 PROX t abstol PYNUM adaptive -> k|x | err:<class> (`fistaSolve`)
+  lmpy M Q b x0 nuInit nu0 gradtol PYNUM    -> i|x | err:<class>          (`lmSolve`)
+  pcsolve mat|fun … P b x0 shift tol PYNUM maxDimInv hasCholmod -> k|x|branch | err:<class>|branch   (`pcglsSolve`)
+  lmexp A Jf x0 gradtol PYNUM               -> ok|r|J | err:explicit | err:<class>   (`lmSolveExplicit`, matrices A, Jf)
+  dtype NAME                                -> promoted-name|atLeastDouble
+  lbinfo warnflag                           -> x=1 success=… func=2 grad=3 nit=4 nfev=5 msg=…   (`wrapLbfgsb` on tagged fields)
+  lbcall hasgrad kw,…                       -> fprime=0|1 approx_grad=N kw,…
+  lscall JAC method loss tol PYNUM          -> jac|method|loss|xtol|max_nfev|accept|reject  | err:<class>   (JAC = None|callable|str:<s>)
+  lsinfo                                    -> x=1 success=1 msg=M func=2 jac=3 nfev=4        (`wrapLS` on tagged fields)
+  rewrap WRAPPER iscuqi                     -> cuqi|plain
 -/
 
 def parseBool (s : String) : Option Bool :=
@@ -298,6 +311,226 @@ def stepMininfo (args : List String) : Option String :=
     some s!"grad={if info.grad.isSome then "some" else "none"} nit={if info.nit.isSome then "some" else "none"}"
   | _ => none
 
+/-! ## glue ops (Model/C16_glue.lean) -/
+
+def parsePyNum (s : String) : Option PyNum :=
+  if s = "nan" then some .nan else if s = "inf" then some .posInf else if s = "-inf" then some .negInf
+  else (parseRat s).map .fin
+
+def fmtCtorErr : CtorErr → String
+  | .valueError => "err:ValueError"
+  | .overflowError => "err:OverflowError"
+
+def stepPyInt (args : List String) : Option String :=
+  match args with
+  | [p] => do
+    let p ← parsePyNum p
+    match pyInt p with
+    | .ok n => some s!"ok:{n}"
+    | .error e => some (fmtCtorErr e)
+  | _ => none
+
+def stepCglsPy (form : String) (args : List String) : Option String := do
+  let (op, rest) ← parseOper form args
+  match rest with
+  | [b, x0, shift, tol, maxit] =>
+    let b ← parseVec b
+    let x0 ← parseVec x0
+    let shift ← parseRat shift
+    let tol ← parseRat tol
+    let maxit ← parsePyNum maxit
+    match op with
+    | none => some "err-dim"
+    | some op =>
+      match toVec op.m b, toVec op.n x0 with
+      | some b, some x0 =>
+        match cglsSolve (oQ op.n) (oQ op.m) op.fwd op.adj b shift tol eps64 x0 maxit with
+        | .ok (x, k) => some s!"{k}|{fmtV x}"
+        | .error e => some (fmtCtorErr e)
+      | _, _ => some "err-dim"
+  | _ => none
+
+def stepFistaPy (form : String) (args : List String) : Option String := do
+  let (op, rest) ← parseOper form args
+  match rest with
+  | [b, x0, ptok, t, abstol, maxit, ad] =>
+    let b ← parseVec b
+    let x0 ← parseVec x0
+    let t ← parseRat t
+    let abstol ← parseRat abstol
+    let maxit ← parsePyNum maxit
+    let ad ← parseBool ad
+    match op with
+    | none => some "err-dim"
+    | some op =>
+      match parseProx op.n ptok with
+      | none => none
+      | some none => some "err-dim"
+      | some (some prox) =>
+        match toVec op.m b, toVec op.n x0 with
+        | some b, some x0 =>
+          match fistaSolve (oQ op.n) (oQ op.m) op.fwd op.adj b prox t abstol ad x0 maxit with
+          | .ok (x, k) => some s!"{k}|{fmtV x}"
+          | .error e => some (fmtCtorErr e)
+        | _, _ => some "err-dim"
+  | _ => none
+
+def fmtBranch : PinvBranch → String
+  | .explicitInv => "inv"
+  | .cholmod => "cholmod"
+  | .spsolve => "spsolve"
+
+def stepPcSolve (form : String) (args : List String) : Option String := do
+  let (op, rest) ← parseOper form args
+  match rest with
+  | [p, b, x0, shift, tol, maxit, mdi, hc] =>
+    let P ← parseMat p
+    let b ← parseVec b
+    let x0 ← parseVec x0
+    let shift ← parseRat shift
+    let tol ← parseRat tol
+    let maxit ← parsePyNum maxit
+    let mdi ← mdi.toInt?
+    let hc ← parseBool hc
+    match op with
+    | none => some "err-dim"
+    | some op =>
+      match toVec op.m b, toVec op.n x0, toMat op.n op.n P with
+      | some b, some x0, some _ =>
+        match QMat.inverse P with
+        | none => some "err-singular"
+        | some Pi =>
+          if !(QMat.isInverse P Pi) then some "err-certificate" else
+          match toMat op.n op.n Pi with
+          | none => some "err-certificate"
+          | some Pim =>
+            let br := fmtBranch (pinvBranch (op.n : Int) mdi hc)
+            match pcglsSolve (oQ op.n) (oQ op.m) op.fwd op.adj b (op.n : Int) mdi hc (mulVec Pim) (mulVecT Pim) shift tol eps64 x0 maxit with
+            | .ok (x, k) => some s!"{k}|{fmtV x}|{br}"
+            | .error (.ctor e) => some s!"{fmtCtorErr e}|{br}"
+            | .error .inv1x1 => some s!"err:inv1x1|{br}"
+            | .error .cholmodAttr => some s!"err:cholmod|{br}"
+      | _, _, _ => some "err-dim"
+  | _ => none
+
+def stepLmPy (args : List String) : Option String :=
+  match args with
+  | [m, q, b, x0, nuInit, nu0, gradtol, maxit] => do
+    let Ml ← parseMat m
+    let Ql ← parseMat q
+    let b ← parseVec b
+    let x0 ← parseVec x0
+    let nuInit ← parseRat nuInit
+    let nu0 ← parseRat nu0
+    let gradtol ← parseRat gradtol
+    let maxit ← parsePyNum maxit
+    let mm := Ml.length
+    let n := QMat.ncols Ml
+    if mm = 0 ∨ n = 0 then some "err-dim" else
+    match toMat mm n Ml, toMat mm n Ql, toVec mm b, toVec n x0 with
+    | some M, some Q, some b, some x0 =>
+      let insolve := fun (J : Mat Rat mm n) (nu : Rat) (g : Vector Rat n) => (lmSolveQ J nu g).getD (Vector.replicate n 0)
+      match lmSolve (oQ n) (oQ mm) (lmRes M Q b) (lmJac M Q) (fun J r => mulVecT J r) insolve nu0 gradtol x0 nuInit maxit with
+      | .ok (x, _, _, i) => some s!"{i}|{fmtV x}"
+      | .error e => some (fmtCtorErr e)
+    | _, _, _, _ => some "err-dim"
+  | _ => none
+
+def stepLmExp (args : List String) : Option String :=
+  match args with
+  | [a, j, x0, gradtol, maxit] => do
+    let Al ← parseMat a
+    let Jl ← parseMat j
+    let x0 ← parseVec x0
+    let gradtol ← parseRat gradtol
+    let maxit ← parsePyNum maxit
+    let mm := Al.length
+    let n := QMat.ncols Al
+    if mm = 0 ∨ n = 0 then some "err-dim" else
+    match toMat mm n Al, toMat mm n Jl, toVec n x0 with
+    | some A, some J, some x0 =>
+      match lmSolveExplicit (oQ mm) (mulVec A) (mulVec J) gradtol x0 maxit with
+      | .ok (_, r, Jv, _) => some s!"ok|{fmtV r}|{fmtV Jv}"
+      | .error (.ctor e) => some (fmtCtorErr e)
+      | .error .explicitBranch => some "err:explicit"
+    | _, _, _ => some "err-dim"
+  | _ => none
+
+def dtypeTable : List (String × DType) :=
+  [("bool", .bool), ("int8", .int8), ("uint8", .uint8), ("int16", .int16), ("uint16", .uint16), ("int32", .int32),
+   ("uint32", .uint32), ("int64", .int64), ("uint64", .uint64), ("float16", .float16), ("float32", .float32),
+   ("float64", .float64), ("longdouble", .longdouble), ("complex64", .complex64), ("complex128", .complex128)]
+
+def stepDtype (args : List String) : Option String :=
+  match args with
+  | [nm] => do
+    let d ← dtypeTable.lookup nm
+    let p := promoteF64 d
+    let pn ← (dtypeTable.find? (fun e => e.2 = p)).map (·.1)
+    some s!"{pn}|{fmtBool p.atLeastDouble}"
+  | _ => none
+
+def kwList (kws : String) : List String := if kws = "_" then [] else kws.splitOn ","
+def fmtKw (kw : List String) : String := if kw.isEmpty then "_" else ",".intercalate kw
+
+def stepLbInfo (args : List String) : Option String :=
+  match args with
+  | [wf] => do
+    let wf ← wf.toInt?
+    let r : FminRes Nat Nat Nat := { x := 1, f := 2, grad := 3, task := "TASK", funcalls := 5, nit := 4, warnflag := wf }
+    let (x, i) := wrapLbfgsb r
+    some s!"x={x} success={i.success} func={i.func} grad={i.grad} nit={i.nit} nfev={i.nfev} msg={i.message}"
+  | _ => none
+
+def stepLbCall (args : List String) : Option String :=
+  match args with
+  | [hg, kws] => do
+    let hg ← parseBool hg
+    let c := lbfgsbCall hg (kwList kws)
+    some s!"fprime={fmtBool c.hasFprime} approx_grad={c.approxGrad} {fmtKw c.kwargs}"
+  | _ => none
+
+def parseJacArg (s : String) : Option JacArg :=
+  if s = "None" then some .none else if s = "callable" then some .callable
+  else if s.startsWith "str:" then some (.str (s.drop 4).toString) else none
+
+def fmtJacArg : JacArg → String
+  | .none => "None"
+  | .callable => "callable"
+  | .str s => "str:" ++ s
+
+def stepLsCall (args : List String) : Option String :=
+  match args with
+  | [jac, method, loss, tol, maxit] => do
+    let jac ← parseJacArg jac
+    let tol ← parseRat tol
+    let maxit ← parsePyNum maxit
+    match lsCall jac method loss tol maxit with
+    | .error e => some (fmtCtorErr e)
+    | .ok c => some s!"{fmtJacArg c.jac}|{c.method}|{c.loss}|{fmtRat c.xtol}|{c.maxNfev}|{if scipyJacOk c.jac then "accept" else "reject"}"
+  | ["default"] =>
+    match lsDefaultCall with
+    | .error e => some (fmtCtorErr e)
+    | .ok c => some s!"{fmtJacArg c.jac}|{c.method}|{c.loss}|{fmtRat c.xtol}|{c.maxNfev}|{if scipyJacOk c.jac then "accept" else "reject"}"
+  | _ => none
+
+def stepLsInfo (args : List String) : Option String :=
+  match args with
+  | [] =>
+    let r : LsqRes Nat Nat Nat := { x := 1, fn := 2, jac := 3, nfev := 4, success := true, message := "M" }
+    let (x, i) := wrapLS r
+    some s!"x={x} success={fmtBool i.success} msg={i.message} func={i.func} jac={i.jac} nfev={i.nfev}"
+  | _ => none
+
+def stepRewrap (args : List String) : Option String :=
+  match args with
+  | [w, c] => do
+    let c ← parseBool c
+    match (wrapperSolution w (if c then some 7 else none) 1 : Sol Nat Nat) with
+    | .plain _ => some "plain"
+    | .cuqi _ g => some (if g = 7 then "cuqi" else "cuqi-other-geometry")
+  | _ => none
+
 def step : List String → String
   | "cgls" :: form :: args => orBad (stepCgls form args)
   | "pcgls" :: form :: args => orBad (stepPcgls form args)
@@ -308,6 +541,18 @@ def step : List String → String
   | "lbfgsb" :: args => orBad (stepLbfgsb args)
   | "mincall" :: args => orBad (stepMincall args)
   | "mininfo" :: args => orBad (stepMininfo args)
+  | "pyint" :: args => orBad (stepPyInt args)
+  | "cglspy" :: form :: args => orBad (stepCglsPy form args)
+  | "fistapy" :: form :: args => orBad (stepFistaPy form args)
+  | "pcsolve" :: form :: args => orBad (stepPcSolve form args)
+  | "lmpy" :: args => orBad (stepLmPy args)
+  | "lmexp" :: args => orBad (stepLmExp args)
+  | "dtype" :: args => orBad (stepDtype args)
+  | "lbinfo" :: args => orBad (stepLbInfo args)
+  | "lbcall" :: args => orBad (stepLbCall args)
+  | "lscall" :: args => orBad (stepLsCall args)
+  | "lsinfo" :: args => orBad (stepLsInfo args)
+  | "rewrap" :: args => orBad (stepRewrap args)
   | _ => "bad-op"
 
 def main : IO Unit := runDriver step
